@@ -598,17 +598,17 @@ c19_asan = B("c19_asan", "checks/c19_threads.cpp", "asan")
 
 
 def jobs_c19(tier):
-    js = sharded(c19, 15, "--tier", tier) + [job(c19_tsan, "--tier", tier, "--free")]
+    js = sharded(c19, 16, "--tier", tier) + [job(c19_tsan, "--tier", tier, "--free")]
     if tier == "thorough":
-        js += sharded(c19_asan, 15, "--tier", "quick")
+        js += sharded(c19_asan, 16, "--tier", "quick")
     return js
 
 
 CHECKS["C19"] = dict(
     engine="sched-lab", level="model_checking", jobs=jobs_c19,
-    level_text="stateless exploration under a cooperative scheduler: for every pair of seven bodies (struct round trip and table "
+    level_text="stateless exploration under a cooperative scheduler: for every pair of eight bodies (struct round trip and table "
                "write/read through yielding reader/writer, Variant/Optional operations on elements whose constructors and "
-               "destructors are scheduling points, one RPC call on a private connection through a lambda binding and one through a member-function binding whose handler is itself a scheduling point, two ThreadLocal scripts over shared "
+               "destructors are scheduling points, one RPC call on a private connection through a lambda binding and one through a member-function binding whose handler is itself a scheduling point, two ThreadLocal scripts and one whose element constructor is itself a scheduling point, over shared "
                "(T,Slot) pairs) incl. each body against itself, and for the 3-thread set {tlsA,tlsA,tlsB}, EVERY schedule with "
                "at most 2 (3 thorough) preemptions is executed on real threads; after each execution every thread's "
                "observation log must equal the log of the same body run alone (values are thread-specific, so a value from "
@@ -621,7 +621,7 @@ CHECKS["C19"] = dict(
     technique="stateless model checking: preemption-bounded exhaustive schedule exploration of the implementation (CHESS-style DFS)",
     rule="states = complete executions (explored schedules); transitions = scheduling points executed; evaluations = schedules",
     assumptions=R_ASSUME[1:] + ["schedules beyond the preemption bound are not explored"],
-    bounds=dict(quick="29 thread sets, <= 2 preemptions, all schedules", thorough="25 sets, <= 3 preemptions (2 for 3-thread sets); ASan build of the quick bound"),
+    bounds=dict(quick="37 thread sets, <= 2 preemptions, all schedules", thorough="25 sets, <= 3 preemptions (2 for 3-thread sets); ASan build of the quick bound"),
     floor=dict(schedules=dict(quick=5000, thorough=50000)),
 )
 ENGINES.append(dict(name="sched-lab", path="checks/c19_threads.cpp, harness/vsched.h", serves_properties=["C19"],
